@@ -2,7 +2,8 @@
    All clauses are stated over the arena model: same address after reclaiming, in-place growth of
    the newest block (upwards), opt-outs, non-last blocks untouched, invariant kept. *)
 From Coq Require Import ZArith List Bool.
-From BS Require Import Word BumpSpec ChunkSpec Arena ArenaInv ArenaStats ArenaMisc ArenaMem ArenaMem2 ArenaExt ArenaInv2 ArenaAlloc LibRefine.
+From BS Require Import Word BumpSpec ChunkSpec Arena ArenaInv ArenaStats ArenaMisc ArenaMem ArenaMem2 ArenaExt ArenaInv2 ArenaAlloc LibRefine AllocRefine.
+From BS.gen Require AllocSites.
 From BS.gen Require LibArith.
 Import ListNotations.
 Open Scope Z_scope.
@@ -95,6 +96,40 @@ Theorem C13_nonlast_fit_shrink_keeps_state :
   raw_shrink c s ptr osize oalign nsize nalign r = (s, inl (mkRO ptr osize false)).
 Proof. exact nonlast_fit_shrink_keeps_state. Qed.
 
+(* the position arithmetic of the CURRENT allocator_impl.rs / set_pos_addr_and_align (cut out by tools/allocsites.py, translated into gen/AllocSites.v on every run) is the arena model's (AllocRefine.v) *)
+Theorem C13_source_is_last_is_the_models :
+  forall ptr size pos, 0 <= ptr -> 0 <= size -> ptr + size < W ->
+  AllocSites.is_last_up ptr size pos = Ok (ptr + size =? pos) /\
+  AllocSites.is_last_down ptr pos = Ok (ptr =? pos).
+Proof. exact is_last_refines. Qed.
+
+Theorem C13_source_dealloc_position_is_the_models :
+  forall upb m ptr size, valid_min_align m -> 0 <= ptr -> 0 <= size -> ptr + size + m - 1 < W ->
+  (AllocSites.dealloc_up_target ptr = Ok ptr /\ AllocSites.dealloc_down_target ptr size = Ok (ptr + size)) /\
+  AllocSites.set_pos_and_align_addr upb m (if upb then ptr else ptr + size)
+  = Ok (align_posZ upb m (if upb then ptr else ptr + size)).
+Proof. exact dealloc_target_refines. Qed.
+
+Theorem C13_source_shrink_up_is_the_models :
+  forall ptr nsize m, valid_min_align m -> 0 <= ptr -> 0 <= nsize -> ptr + nsize + m - 1 < W ->
+  AllocSites.shrink_up_end ptr nsize = Ok (ptr + nsize) /\
+  AllocSites.shrink_up_new_pos (ptr + nsize) m = Ok (up_alignZ (ptr + nsize) m).
+Proof. exact shrink_up_refines. Qed.
+
+Theorem C13_source_shrink_down_is_the_models :
+  forall ptr osize nsize nalign m,
+  valid_min_align m -> pow2 nalign -> nalign < W -> 0 <= ptr -> 0 <= nsize <= osize -> ptr + osize < W ->
+  let new_addr := down_alignZ (Z.max (ptr + osize - nsize) 0) (Z.max nalign m) in
+  AllocSites.shrink_down_old_end ptr osize = Ok (ptr + osize) /\
+  AllocSites.shrink_down_new_addr (ptr + osize) nsize nalign m = Ok new_addr /\
+  AllocSites.shrink_down_copy_src_end ptr nsize = Ok (ptr + nsize) /\
+  AllocSites.shrink_down_overlaps (ptr + nsize) new_addr = Ok (new_addr <? ptr + nsize).
+Proof. exact shrink_down_refines. Qed.
+
+Theorem C13_source_align_fits_is_the_models :
+  forall ptr a, pow2 a -> 0 <= ptr -> AllocSites.is_aligned_to ptr a = Ok (divides a ptr).
+Proof. exact is_aligned_to_refines. Qed.
+
 Print Assumptions C13_dealloc_then_alloc_same_address_up.
 Print Assumptions C13_grow_newest_in_place_up.
 Print Assumptions C13_dealloc_optout_keeps_stats.
@@ -107,3 +142,8 @@ Print Assumptions C13_growing_step_never_decreases_allocated.
 Print Assumptions C13_raw_alloc_never_decreases.
 Print Assumptions C13_optout_shrink_never_decreases_allocated.
 Print Assumptions C13_nonlast_fit_shrink_keeps_state.
+Print Assumptions C13_source_is_last_is_the_models.
+Print Assumptions C13_source_dealloc_position_is_the_models.
+Print Assumptions C13_source_shrink_up_is_the_models.
+Print Assumptions C13_source_shrink_down_is_the_models.
+Print Assumptions C13_source_align_fits_is_the_models.
